@@ -61,3 +61,59 @@ T('C14', 'expand-pad-tuple-literal', [(F, "values = self.values.reshape(self.dom
 T('C14', 'cv-combine-issubset', [(CV, "if set(cl) <= set(cl2):", "if set(cl2) >= set(cl):")])
 T('C14', 'axes-inline-generator', [(F, "        axes = self.domain.axes(attrs)\n        values = logsumexp(self.values, axis=axes) ",
                                       "        axes = tuple(self.domain.attrs.index(a) for a in attrs)\n        values = logsumexp(self.values, axis=axes) ")])
+T('C14', 'iadd-equal-domain-fastpath', [(F, "        factor2 = other.expand(self.domain)\n        self.values += factor2.values",
+                                           "        if other.domain == self.domain:\n            self.values += other.values\n            return self\n        factor2 = other.expand(self.domain)\n        self.values += factor2.values")])
+K('C14', 'iadd-same-attrset-fastpath', [(F, "        factor2 = other.expand(self.domain)\n        self.values += factor2.values",
+                                           "        if other.domain.contains(self.domain):\n            self.values += other.values\n            return self\n        factor2 = other.expand(self.domain)\n        self.values += factor2.values")], 'inplace')
+
+# ------------------------------------------------------------------ C08
+K('C08', 'md-store-omega-with-trial-mu', [(INF, "        model.potentials = theta\n        model.marginals = mu\n\n        return ans[0]",
+                                            "        model.potentials = omega\n        model.marginals = mu\n\n        return ans[0]")], 'pair-at-exit')
+K('C08', 'ig-store-mle-z-with-x', [(INF, "        model.marginals = x\n        model.potentials = model.mle(x) ", "        model.marginals = x\n        model.potentials = model.mle(z) ")], 'pair-at-exit')
+K('C08', 'rda-store-marginals-only', [(INF, "        model.marginals = w\n        model.potentials = model.mle(w) ", "        model.marginals = w\n")], 'pair-at-exit')
+K('C08', 'md-restore-theta-only', [(INF, "                alpha *= 0.5\n\n        model.potentials = theta", "                alpha *= 0.5\n            else:\n                theta = omega\n\n        model.potentials = theta")], 'pair-at-exit')
+K('C08', 'md-mu-after-store-update', [(INF, "        model.potentials = theta\n        model.marginals = mu\n\n        return ans[0]",
+                                         "        model.potentials = theta\n        theta = theta - alpha*dL\n        model.marginals = model.belief_propagation(theta)\n\n        return ans[0]")], 'pair-at-exit')
+K('C08', 'mle-prev-clique-separator', [(GM, "            new = tuple(variables & set(cl))\n            #factor = marginals[cl] / marginals[cl].project(new)\n            variables.update(cl)",
+                                          "            new = tuple(variables & set(cl))\n            variables = set(cl)")], 'mle-form')
+K('C08', 'mle-update-before-separator', [(GM, "            new = tuple(variables & set(cl))\n            #factor = marginals[cl] / marginals[cl].project(new)\n            variables.update(cl)",
+                                            "            variables.update(cl)\n            new = tuple(variables & set(cl))")], 'mle-form')
+T('C08', 'md-tuple-store', [(INF, "        model.potentials = theta\n        model.marginals = mu\n\n        return ans[0]",
+                              "        model.potentials, model.marginals = theta, mu\n\n        return ans[0]")])
+T('C08', 'ig-store-order-swapped', [(INF, "        model.marginals = x\n        model.potentials = model.mle(x) ", "        model.potentials = model.mle(x)\n        model.marginals = x")])
+T('C08', 'rda-store-via-self-model', [(INF, "        model.marginals = w\n        model.potentials = model.mle(w) ", "        self.model.marginals = w\n        self.model.potentials = self.model.mle(w) ")])
+T('C08', 'md-renamed-locals', [(INF, "                theta = omega - alpha*dL\n                mu = model.belief_propagation(theta)\n                ans = self._marginal_loss(mu)",
+                                 "                theta = omega - alpha*dL\n                trial = model.belief_propagation(theta)\n                mu = trial\n                ans = self._marginal_loss(mu)")])
+
+# ------------------------------------------------------------------ C10
+K('C10', 'rda-drop-zeros', [(INF, "theta = zeros + -t*(t+1)/(4*L+beta)/self.model.total * gbar ", "theta = -t*(t+1)/(4*L+beta)/self.model.total * gbar ")], 'mask-at-bp')
+K('C10', 'setup-mask-only-cold', [(INF, "        model.potentials.combine(self.structural_zeros)\n        if self.warm_start and hasattr(self, 'model'):\n            model.potentials.combine(self.model.potentials)",
+                                     "        if self.warm_start and hasattr(self, 'model'):\n            model.potentials.combine(self.model.potentials)\n        else:\n            model.potentials.combine(self.structural_zeros)")], 'mask-at-setup')
+K('C10', 'active-writes-zero', [(F, "        vals[idx] = -np.inf", "        vals[idx] = 0")], 'active-form')
+K('C10', 'ig-theta-rebuilt', [(INF, "            theta = theta - a/c/total * g", "            theta = -a/c/total * g")], 'mask-at-bp')
+K('C10', 'md-theta-scaled', [(INF, "                theta = omega - alpha*dL", "                theta = 0.5*omega - alpha*dL")], 'mask-at-bp')
+K('C10', 'setup-no-zero-cliques', [(INF, "        if self.structural_zeros is not None:\n            cliques += list(self.structural_zeros.keys())\n\n        model = GraphicalModel(",
+                                       "        model = GraphicalModel(")], 'zero-cliques')
+K('C10', 'sub-no-inf-guard', [(F, "        other = Factor(other.domain, np.where(other.values==-np.inf, 0, -other.values))\n        return self + other",
+                                 "        other = Factor(other.domain, -other.values)\n        return self + other")], 'inf-guard')
+K('C10', 'ctor-skips-singletons', [(INF, "        for cl in structural_zeros:\n            dom = self.domain.project(cl)",
+                                       "        for cl in structural_zeros:\n            if len(cl) < 2: continue\n            dom = self.domain.project(cl)")], 'mask-per-key')
+T('C10', 'md-theta-plus-neg', [(INF, "                theta = omega - alpha*dL", "                theta = omega + (-alpha)*dL")])
+T('C10', 'setup-mask-after-warm', [(INF, "        model.potentials.combine(self.structural_zeros)\n        if self.warm_start and hasattr(self, 'model'):\n            model.potentials.combine(self.model.potentials)",
+                                      "        if self.warm_start and hasattr(self, 'model'):\n            model.potentials.combine(self.model.potentials)\n        model.potentials.combine(self.structural_zeros)")])
+T('C10', 'sub-isneginf-guard', [(F, "np.where(other.values==-np.inf, 0, -other.values)", "np.where(np.isneginf(other.values), 0, -other.values)")])
+T('C10', 'ig-theta-inplace-sub', [(INF, "            theta = theta - a/c/total * g", "            theta -= a/c/total * g")])
+
+# ------------------------------------------------------------------ C16
+K('C16', 'gbp-drop-log-total', [(RG, "            belief = potentials[r] + sum(self.messages[r1,r2] for r1,r2 in self.B[r])\n            belief += np.log(self.total) - belief.logsumexp()",
+                                   "            belief = potentials[r] + sum(self.messages[r1,r2] for r1,r2 in self.B[r])\n            belief += -belief.logsumexp()")], 'returned-normalised-to-total')
+K('C16', 'gbp-normalise-by-potential', [(RG, "            belief = potentials[r] + sum(self.messages[r1,r2] for r1,r2 in self.B[r])\n            belief += np.log(self.total) - belief.logsumexp()",
+                                           "            belief = potentials[r] + sum(self.messages[r1,r2] for r1,r2 in self.B[r])\n            belief += np.log(self.total) - potentials[r].logsumexp()")], None)
+K('C16', 'cm-raw-exp', [(FG, "            belief += np.log(self.total) - belief.logsumexp()\n            marginals[cl] = belief.exp()", "            marginals[cl] = belief.exp() * self.total")], None)
+K('C16', 'cm-cached-logtotal', [(FG, "            belief += np.log(self.total) - belief.logsumexp()\n            marginals[cl] = belief.exp()", "            belief += self.logtotal - belief.logsumexp()\n            marginals[cl] = belief.exp()")], None)
+K('C16', 'cm-stale-potentials', [(FG, "            belief = potentials[cl] + sum(mu_n[n][cl] for n in cl)", "            belief = self.potentials[cl] + sum(mu_n[n][cl] for n in cl)")], 'oracle-uses-given-potentials')
+K('C16', 'lbp-returns-old-marginals', [(FG, "        self.messages = mu_n, mu_f\n        self.marginals = self.clique_marginals(mu_n, mu_f, potentials)\n        return self.marginals",
+                                          "        self.messages = mu_n, mu_f\n        old = self.marginals\n        self.marginals = self.clique_marginals(mu_n, mu_f, potentials)\n        return old")], 'returns-clique-marginals')
+T('C16', 'gbp-hoisted-shift', [(RG, "            belief = potentials[r] + sum(self.messages[r1,r2] for r1,r2 in self.B[r])\n            belief += np.log(self.total) - belief.logsumexp()",
+                                  "            belief = potentials[r] + sum(self.messages[r1,r2] for r1,r2 in self.B[r])\n            logt = np.log(self.total)\n            shift = logt - belief.logsumexp()\n            belief = belief + shift")])
+T('C16', 'cm-one-expression', [(FG, "            belief += np.log(self.total) - belief.logsumexp()\n            marginals[cl] = belief.exp()", "            marginals[cl] = (belief - belief.logsumexp() + np.log(self.total)).exp()")])
